@@ -152,3 +152,76 @@ def mutation_closure(pid, mod, prog, obligations, budget_s=600):
                     "(or that is protected redundantly); `survived_expected` = weakenings that stay at or above the floor",
         }
     }
+
+
+def early_return_probe(pid, mod, prog, obligations, budget_s=300):
+    """Additive-change probe: in every function that an obligation of the property cites, insert a *conditional* early return after
+    each call in turn (the normal path stays; a new path from that call to the function's return appears) and re-evaluate the rules.
+    A killed mutant = some rule notices that the rest of the function can now be skipped (must-pass-through / post-dominance /
+    once-per-path rules); a survivor = skipping from there is invisible to this property's rules. Survivors are expected (returning
+    early after the last effect is harmless); the list is the map of where a new fast path would not be noticed."""
+    t0 = time.time()
+    base_failed, _ = _eval(mod, pid, prog)
+    base = set(base_failed)
+    paths = set()
+    for o in obligations:
+        if o.config != "default":
+            continue
+        for (path, b, i) in o.refs:
+            paths.add(path)
+    mutants = []
+    for path in sorted(paths):
+        body = prog.by_path.get(path)
+        if body is None:
+            continue
+        rets = [b for b in body.live_blocks if body.blocks[b]["term"]["t"] == "return"]
+        if not rets:
+            continue
+        for b in sorted(body.live_blocks):
+            blk = body.blocks[b]
+            t = blk["term"]
+            if blk["cleanup"] or t["t"] != "call" or t.get("to") is None or t.get("exp"):
+                continue
+            if t["to"] in rets:
+                continue
+            mutants.append((path, b, rets[0]))
+    killed = 0
+    done = 0
+    surv_by_fn = {}
+    kill_by_fn = {}
+    for path, b, ret in mutants:
+        if time.time() - t0 > budget_s:
+            break
+        body = prog.by_path[path]
+        rec = copy.deepcopy(body.rec)
+        for blk in rec["blocks"]:
+            blk["term"].pop("callee_n", None)
+            blk["term"].pop("resolved_n", None)
+        t = rec["blocks"][b]["term"]
+        nl = len(rec["locals"])
+        rec["locals"].append({"ty": "bool", "head": "bool", "user": False})
+        nb = len(rec["blocks"])
+        rec["blocks"].append({"cleanup": False, "stmts": [], "term": {
+            "t": "switch", "d": {"k": "copy", "pl": {"l": nl, "p": []}}, "targets": [[0, t["to"]]], "otherwise": ret,
+            "dty": "bool", "line": t.get("line", 0), "exp": False}})
+        t["to"] = nb
+        done += 1
+        mp = _clone_with(prog, path, rec)
+        failed, crashed = _eval(mod, pid, mp)
+        new = [k for k in failed if k not in base]
+        fn = body.name
+        if new or crashed:
+            killed += 1
+            kill_by_fn[fn] = kill_by_fn.get(fn, 0) + 1
+        else:
+            surv_by_fn.setdefault(fn, []).append("%s:%s after %s" % (body.file.replace("nexosim/src/", ""), t.get("line"), core.last_seg(core.norm(t.get("callee") or "?"))))
+    return {
+        "early_return_probe": {
+            "operator": "insert a conditional early return after one call of a cited function (normal path kept)",
+            "mutants": done, "enumerated": len(mutants), "killed": killed, "exhaustive": done == len(mutants),
+            "killed_by_function": kill_by_fn,
+            "survivors_by_function": {k: v[:12] for k, v in sorted(surv_by_fn.items())},
+            "wall_s": round(time.time() - t0, 1),
+            "note": "informational map for added-code changes; survivors are expected where nothing the property needs follows the call",
+        }
+    }
